@@ -230,6 +230,38 @@ def run(ck, ctx):
                   CG.I.g.show(cf, 1) if cf is not None else "missing")
     ck.guard(r094b, "R09.4 (compute)")
 
+    # ---------------------------------------------------------------- the coordinates stay with their event (optical stage)
+    def r094c():
+        from .eas_ctx import EasCtx, EAS_PARAMS
+        from ..facets.lenclass import LenClass, is_def
+        E = EasCtx(ctx)
+        J = E.I
+        batch = [c for c in J.call_log if c[0].qualname == "CphotAng.__call__"]
+        ck.floor("R09.4", len(batch), 1, "batch invocations of the kernel from the optical stage")
+        for fi_, site_, loc_, _v, _pc in batch:
+            params = [a.arg for a in fi_.node.args.args if a.arg not in ("self", "cloudf")]
+            if len(params) != 5:
+                raise AnalysisError("CphotAng.__call__ does not take the five per-event arrays")
+            lc = LenClass(J)
+            for k_ in EAS_PARAMS:
+                lc.seed(E.ins[k_], ("EV", "in"))
+            cls_ = {p_: lc.of(J.res(loc_[p_], E.st)) for p_ in params}
+            ref = cls_[params[0]]
+            ok = all(is_def(c_) for c_ in cls_.values()) and all(c_ == ref for c_ in cls_.values())
+            ck.ob("R09.4", "the latitude / longitude arrays handed to the kernel batch select the same events as the "
+                  "angle, altitude and energy arrays (the cloud top is looked up at the event's own location)", ok,
+                  site_, "EAS.__call__", "; ".join(f"{p_}: {lc.show(c_)}" for p_, c_ in cls_.items()),
+                  construct="EAS.__call__: event selection of the kernel's coordinate arguments")
+            dep = Dep(J)
+            for p_, src in ((params[3], "init_lat"), (params[4], "init_long")):
+                v_ = J.res(loc_[p_], E.st)
+                kinds = {k_: dep.depends_on(v_, E.ins[k_]) for k_ in EAS_PARAMS}
+                vals = sorted(k_ for k_, kk in kinds.items() if "v" in kk)
+                ck.ob("R09.4", f"the kernel's {p_} values are the stage's {src} values (selected, not recomputed)",
+                      vals == [src], site_, "EAS.__call__", f"value flow from {vals}",
+                      construct=f"EAS.__call__: source of the kernel's {p_}")
+    ck.guard(r094c, "R09.4 (stage)")
+
     # ---------------------------------------------------------------- R09.6 / R09.7 kernel
     def kernel():
         K = KernelCtx(ctx)
